@@ -113,3 +113,18 @@ def cmp_true_edge(body, bb):
     if neg:
         t, f = f, t
     return (op, a, b, t, f)
+
+
+def natural_loop(body, header):
+    """Blocks of the natural loop(s) with this header: header plus everything that can reach a back
+    edge source without passing through the header."""
+    backs = [p for p in body.preds(header) if body.dominates(header, p)]
+    loop = {header}
+    work = list(backs)
+    while work:
+        x = work.pop()
+        if x in loop:
+            continue
+        loop.add(x)
+        work.extend(body.preds(x))
+    return loop
